@@ -32,7 +32,8 @@ CONSTANTS Prop,       \* "C05": fixed schedule load(p); resolve_aliases(), refer
           Scale,      \* "quick" | "thorough": selects the statement bound of each family (TotalOf)
           TotalCap,   \* > 0: overrides the statement bound (used by --replay)
           Domain,     \* "all": every program (the clauses are claimed for those without a recorded defect pattern);
-                      \* "clean" / "defect": only the programs without / with a recorded defect pattern
+                      \* "clean" / "defect": only the programs without / with a recorded defect pattern;
+                      \* "old": only programs matching the pattern of a fixed defect (used with Old # {})
           Grain,      \* micro steps merged into one TLC transition (1: every intermediate state is a TLC state)
           Gen         \* TRUE: print one CASE record per finished behaviour
 
@@ -57,7 +58,7 @@ Present ==
   CASE Family \in {"chain", "chain-q", "exports", "exports-q", "reexp", "reexp-q", "topstar", "splice"} -> {"p", "p.a", "p.b"}
     [] Family \in {"pkg", "pkg-q"} -> {"p", "p.s", "p.s.c"}
     [] Family \in {"graph", "graph-q", "fine"} -> {"p", "p.a", "p.b", "q"}
-    [] Family \in {"wild", "wild-q", "retarget", "retarget-q", "selfcyc"} -> {"p", "p.a", "p.b"}
+    [] Family \in {"wild", "wild-q", "retarget", "retarget-q", "selfcyc", "twostar", "apicyc"} -> {"p", "p.a", "p.b"}
     [] Family \in {"spl-down", "spl-up"} -> {"p", "p.a", "p.b", "p.s"}
     [] Family = "side" -> {"p", "q", "r"}
     [] OTHER -> {"p"}
@@ -68,7 +69,7 @@ ModOrder ==
     [] Family = "spl-down" -> <<"p.s", "p.b", "p.a", "p">>    \* p.a splices p.b's __all__, which splices p.s's: dependents are expanded first
     [] Family = "spl-up" -> <<"p.a", "p.b", "p.s", "p">>      \* p.s splices p.b's, which splices p.a's: dependencies are expanded first
     [] Family = "side" -> <<"r", "q", "p">>
-    [] Family = "selfcyc" -> <<"p.a", "p.b", "p">>           \* a sub-module star-imports its (already imported) parent package
+    [] Family \in {"selfcyc", "twostar", "apicyc"} -> <<"p.a", "p.b", "p">>           \* a sub-module star-imports its (already imported) parent package
     [] Family \in {"graph", "graph-q", "fine"} -> <<"p.a", "p.b", "p", "q">>
     [] OTHER -> <<"p">>
 Quick == Family \in {"chain-q", "exports-q", "pkg-q", "graph-q", "reexp-q"}
@@ -111,6 +112,14 @@ Menu(m) ==
         ( CASE m = "r" -> {Def("y")}
             [] m = "q" -> {Def("x"), From("r", "y"), FromAs("r", "y", "x")} \cup (IF Scale = "quick" THEN {} ELSE {From("zz", "y"), Def("y")})
             [] OTHER -> {From("q", "x"), From("zz", "y"), From("q", "y")} \cup (IF Scale = "quick" THEN {} ELSE {Star("q"), FromAs("r", "y", "x")}) )
+    [] Family = "apicyc" ->        \* alias chains (re)built through the public `alias.target = value` setter: resolved chains and cycles
+        ( CASE m = "p.a" -> {From("p.b", "x")}
+            [] m = "p.b" -> {From("p.a", "x")}
+            [] OTHER -> {From("p.a", "x")} )
+    [] Family = "twostar" ->       \* the same alias is star-imported from two modules (the second expansion finds it in `seen`)
+        ( CASE m = "p.a" -> {From("zz", "x"), From("p.b", "x")}
+            [] m = "p.b" -> {Star("p.a.x"), Def("x")}
+            [] OTHER -> {Star("p.a.x"), Star("p.b")} )
     [] Family = "selfcyc" ->       \* a module imports itself under an alias and imports through it: chains that lead INTO a resolved cycle
         ( CASE m = "p.a" -> {ImportAs("p.a", "y"), From("p.a.y", "x"), Def("x")}
             [] m = "p.b" -> {From("p.a", "x"), ImportAs("p.a", "y"), From("p.b.y", "x")}
@@ -163,6 +172,8 @@ MaxLen(m) ==
     [] Family \in {"spl-down", "spl-up"} -> (IF m = "p" THEN 1 ELSE 2)
     [] Family = "side" -> (IF m = "r" THEN 1 ELSE 2)
     [] Family = "selfcyc" -> 2
+    [] Family = "twostar" -> 1
+    [] Family = "apicyc" -> 1
     [] Family \in {"pkg", "pkg-q"} -> (IF m = "p.s.c" THEN 1 ELSE 2)
     [] Family \in {"graph", "graph-q", "fine", "wild", "wild-q", "retarget", "retarget-q"} -> (IF m = "q" THEN 1 ELSE 2)
     [] OTHER -> 2
@@ -173,6 +184,8 @@ MaxTotal ==
   ELSE IF Family \in {"spl-down", "spl-up"} THEN 7
   ELSE IF Family = "side" THEN (IF Scale = "quick" THEN 4 ELSE 5)
   ELSE IF Family = "selfcyc" THEN (IF Scale = "quick" THEN 3 ELSE 4)
+  ELSE IF Family = "twostar" THEN 3
+  ELSE IF Family = "apicyc" THEN 3
   ELSE IF Scale = "quick"
        THEN ( CASE Family = "chain-q" -> 3 [] Family = "exports-q" -> 4 [] Family = "pkg-q" -> 3 [] Family = "reexp-q" -> 6
                 [] Family = "graph-q" -> 2 [] Family = "wild-q" -> 3 [] Family = "retarget-q" -> 5 [] Family = "fine" -> 2
@@ -184,10 +197,13 @@ MaxTotal ==
 \* C06 schedules: "std": load the relevant packages in any order, optionally resolve in between, then resolve twice;
 \*                "free": any sequence of load / resolve_aliases calls within MaxOps
 \*                "ext": only p is loaded, then resolve_aliases(external=True) twice: the other packages are side-loaded
-Sched == IF Family = "fine" THEN "free" ELSE IF Family = "side" THEN "ext" ELSE "std"
+\*                "api": load(p), then up to two `alias.target = other` assignments between member aliases / definitions
+Sched == IF Family = "fine" THEN "free" ELSE IF Family = "side" THEN "ext" ELSE IF Family = "apicyc" THEN "api" ELSE "std"
 MaxOps == IF Prop = "C05" THEN 2
           ELSE IF Family = "fine" THEN (IF Scale = "quick" THEN 3 ELSE 4)
-          ELSE IF Family \in {"graph", "graph-q"} THEN 5 ELSE 3     \* ("ext": load(p), resolve, resolve)
+          ELSE IF Family \in {"graph", "graph-q"} THEN 5
+          ELSE IF Family = "apicyc" THEN 4                            \* load(p) and up to three assignments
+          ELSE 3                                                      \* ("ext": load(p), resolve, resolve)
 
 TotalLen(pr) == LET RECURSIVE sum(_) sum(k) == IF k = 0 THEN 0 ELSE Len(pr[ModOrder[k]]) + sum(k - 1) IN sum(Len(ModOrder))
 
@@ -245,12 +261,15 @@ D5 == \E e \in AllStmts(prog) : e.s.op = "star" /\ IsAncestor(e.s.m, e.m)
 E1 == \E e \in AllStmts(prog) : e.s.op = "star" /\ e.s.m \in Present /\ ImportsOf(prog, e.s.m) # {}
 \* C06-E2  a path that runs THROUGH a member (crossing an alias -> Alias.members builds born-"resolved" aliases;
 \*         a failing crossing raises the alias error out of get_member, which the loader does not catch)
-E2 == \E e \in AllStmts(prog) : e.s.op \in {"star", "from"} /\ e.s.m \notin Mods /\ e.s.m \notin {"zz", "p.zz"}
+E2old == \E e \in AllStmts(prog) : e.s.op \in {"star", "from"} /\ e.s.m \notin Mods /\ e.s.m \notin {"zz", "p.zz"}
 \* C06-E3  a star import of a module that star-imports back (the pseudo member "pkg/mod/*" is itself exposed)
-E3 == \E e \in AllStmts(prog) : e.s.op = "star" /\ e.s.m \in Present /\ \E t \in StmtsOf(prog, e.s.m) : t.op = "star"
+E3old == \E e \in AllStmts(prog) : e.s.op = "star" /\ e.s.m \in Present /\ \E t \in StmtsOf(prog, e.s.m) : t.op = "star"
+\* E2, E3, E4 describe FIXED defects: they only apply when the corresponding old behaviour is switched on (regression configs)
+E2 == E2old /\ Old \cap {"starpath", "expwild", "bindfirst"} # {}
+E3 == E3old /\ Old \cap {"expwild", "wildcycle"} # {}
 \* C06-E4  resolve_aliases(external=True): a side-loaded package imports from a further package that has to be side-loaded
 \*         too - the fix-point test `unresolved != prev_unresolved` does not see that a package was loaded during the iteration
-E4 == Sched = "ext" /\ \E e \in AllStmts(prog) : TopOf(e.m) # "p" /\ e.s.op \in {"from", "star", "import"}
+E4 == "sideload" \in Old /\ Sched = "ext" /\ \E e \in AllStmts(prog) : TopOf(e.m) # "p" /\ e.s.op \in {"from", "star", "import"}
                           /\ PP(e.s.m)[1] \in (TopPkgs \cap Present) \ {"p", TopOf(e.m)}
 Flags == (IF Prop = "C05"
           THEN (IF D1 THEN {"D1"} ELSE {}) \cup (IF D2 THEN {"D2"} ELSE {}) \cup (IF D3 THEN {"D3"} ELSE {})
@@ -472,8 +491,9 @@ StepEW(S0, t) ==
          IF S0.exc # "" THEN Throw(S0, S0.exc)
          ELSE CallF([S0 EXCEPT !.seen = t.set], [t EXCEPT !.st = "w-lk"], FrLK(S0.al[S0.mem[a.m][t.i].o].tp))
     [] t.st = "w-lk" ->
-         IF S0.exc = "KEY" THEN SetTop(S0, [t EXCEPT !.st = "scan", !.i = @ + 1])
-         ELSE IF S0.exc # "" THEN Throw(S0, S0.exc)             \* only KeyError is caught here
+         \*   except (KeyError, AliasResolutionError, CyclicAliasError): continue        ("starpath": only KeyError was caught)
+         IF S0.exc = "KEY" \/ (S0.exc \in {"ARE", "CYC"} /\ "starpath" \notin Old) THEN SetTop(S0, [t EXCEPT !.st = "scan", !.i = @ + 1])
+         ELSE IF S0.exc # "" THEN Throw(S0, S0.exc)
          ELSE LET tg == S0.ret IN
               \*   if target.path not in seen: try: self.expand_wildcards(target, ...)
               \*                               except (AliasResolutionError, CyclicAliasError): continue
@@ -489,12 +509,17 @@ StepEW(S0, t) ==
          LET e == S0.mem[a.m][t.i]  tg == t.cur IN
          IF IsAl(S0, tg) THEN CallF(S0, [t EXCEPT !.st = "collect-mb"], Fr("MB", tg))
          ELSE LET src == MembersOf(S0, tg)
-                  exp == SelectSeq(src, LAMBDA x : Exposed(S0, tg.m, x))
+                  \* `if not (imported_member.is_alias and imported_member.wildcard) and imported_member.is_wildcard_exposed`
+                  \* ("wildcycle": the pseudo members "pkg/mod/*" were copied like any exposed alias)
+                  exp == SelectSeq(src, LAMBDA x : Exposed(S0, tg.m, x) /\ ("wildcycle" \in Old \/ ~(IsAl(S0, x.o) /\ x.n \in StarNames)))
               IN SetTop(S0, [t EXCEPT !.st = "scan", !.i = @ + 1, !.r = Append(@, e.n),
                                       !.q = @ \o [k \in 1..Len(exp) |-> [o |-> exp[k].o, l |-> ObjLine(e.o)]]])
     [] t.st = "collect-mb" ->
          \* the star target is an alias: its members are the transient aliases of Alias.members (not modelled further)
-         IF S0.exc # "" THEN Throw(S0, S0.exc)
+         \*   try: expanded.extend(self._expand_wildcard(member))
+         \*   except (AliasResolutionError, CyclicAliasError): continue                   ("expwild": there was no try block)
+         IF S0.exc \in {"ARE", "CYC"} /\ "expwild" \notin Old THEN SetTop(S0, [t EXCEPT !.st = "scan", !.i = @ + 1])
+         ELSE IF S0.exc # "" THEN Throw(S0, S0.exc)
          ELSE SetTop([S0 EXCEPT !.unmod = TRUE], [t EXCEPT !.st = "scan", !.i = @ + 1, !.r = Append(@, S0.mem[a.m][t.i].n)])
     [] t.st = "sub" -> IF S0.exc # "" THEN Throw(S0, S0.exc) ELSE SetTop(S0, [t EXCEPT !.st = "scan", !.i = @ + 1])
     [] t.st = "apply" -> IF S0.exc # "" THEN Throw(S0, S0.exc) ELSE EWApply(S0, t)
@@ -586,8 +611,11 @@ StepRA(S0, t) ==
          \*   while unresolved and unresolved != prev_unresolved and iteration < max_iterations:
          \*       prev_unresolved = unresolved - {"0"} ; unresolved = set() ; iteration += 1
          \*       for module_name in list(collection.keys()): ...              (t.j: length of the snapshot)
-         IF S0.unres # {} /\ S0.unres # t.set
-         THEN SetTop([S0 EXCEPT !.unres = {}, !.iter = @ + 1], [t EXCEPT !.st = "mods", !.i = 1, !.j = Len(S0.coll), !.set = S0.unres \ Marker])
+         \*   loaded = -1 ... while unresolved and (unresolved != prev_unresolved or len(collection) != loaded) ...: loaded = len(collection)
+         \*   ("sideload": the loop only compared the sets)                      t.r = <<loaded>>, <<>> stands for -1
+         IF S0.unres # {} /\ (S0.unres # t.set \/ ("sideload" \notin Old /\ t.r # <<Len(S0.coll)>>))
+         THEN SetTop([S0 EXCEPT !.unres = {}, !.iter = @ + 1],
+                     [t EXCEPT !.st = "mods", !.i = 1, !.j = Len(S0.coll), !.r = <<Len(S0.coll)>>, !.set = S0.unres \ Marker])
          ELSE Return(S0, Nil)
     [] t.st = "mods" ->
          IF S0.exc # "" THEN Throw(S0, S0.exc)
@@ -610,6 +638,18 @@ StepPR(S0, t) ==
     [] t.st = "mb" -> Return([S0 EXCEPT !.pout = Append(@, IF S0.exc = "" THEN "ok" ELSE S0.exc)], Nil)
     [] OTHER -> Throw(S0, "OTHER")
 
+\* ST: Alias.target setter
+\*   if value is self or value.path == self.path: raise CyclicAliasError([self.target_path])
+\*   self._target = value ; self.target_path = value.path ; if self.parent is not None: self._target.aliases[self.path] = self
+StepST(S0, t) ==
+  LET a == t.a  v == t.x IN
+  CASE t.st = "enter" ->
+         IF v = a \/ PathOf(S0, v) = PathOf(S0, a) THEN Throw(S0, "CYC")
+         ELSE LET S1 == [S0 EXCEPT !.al[a].tgt = v, !.al[a].tp = PathOf(S0, v)] IN
+              IF IsAl(S0, v) THEN CallF(S1, [t EXCEPT !.st = "reg"], Fr("FT", v)) ELSE Return(AddRef(S1, v, a), Nil)
+    [] t.st = "reg" -> IF S0.exc # "" THEN Throw(S0, S0.exc) ELSE Return(AddRef(S0, S0.ret, a), Nil)
+    [] OTHER -> Throw(S0, "OTHER")
+
 MicroStep(S0) ==
   LET t == TopF(S0) IN
   CASE t.f \in {"RT", "FT", "MB", "LK"} -> AliasStep(S0, t)
@@ -619,6 +659,7 @@ MicroStep(S0) ==
     [] t.f = "RA" -> StepRA(S0, t)
     [] t.f = "LD" -> StepLD(S0, t)
     [] t.f = "PR" -> StepPR(S0, t)
+    [] t.f = "ST" -> StepST(S0, t)
     [] OTHER -> Throw(S0, "OTHER")
 
 RECURSIVE Iter(_, _)
@@ -658,6 +699,8 @@ NextMod ==
      THEN /\ TotalLen(prog) > 0
           /\ (Domain = "clean" => Flags = {})
           /\ (Domain = "defect" => Flags # {})
+          \* regression configs (Old # {}): only the programs that match a pattern of a FIXED defect and no pattern of an open one
+          /\ (Domain = "old" => (Flags \cap {"E2", "E3", "E4"} # {} /\ Flags \cap {"E1"} = {}))
           /\ phase' = IF Prop = "C05" THEN "py" ELSE "ld"
           /\ flagsv' = Flags
      ELSE phase' = phase /\ UNCHANGED flagsv
@@ -715,14 +758,22 @@ StartOp ==       \* a public call begins (the previous one, if any, has returned
   /\ \/ \E pkg \in Wanted :
           /\ ~Loaded(S, pkg)
           /\ S' = [S EXCEPT !.stack = <<Fr("LD", ModId(pkg))>>, !.hist = IF TraceOn THEN Append(@, <<"LD", <<pkg>>>>) ELSE @]
-          /\ ops' = Append(ops, [op |-> "load", arg |-> pkg, out |-> "", unres |-> {}, iter |-> 0])
+          /\ ops' = Append(ops, [op |-> "load", arg |-> pkg, out |-> "", unres |-> {}, iter |-> 0, a |-> Nil, v |-> Nil])
           /\ lastres' = <<>>
        \/ /\ S.coll # <<>> /\ ~LastTwoResolve
           /\ (Prop = "C05" => NumOps("resolve") = 0)
-          /\ (Sched \in {"std", "ext"} /\ LastOp = "resolve" => AllWantedLoaded)
+          /\ (Sched \in {"std", "ext"} /\ LastOp = "resolve" => AllWantedLoaded) /\ Sched # "api"
           /\ S' = [S EXCEPT !.stack = <<Fr("RA", Nil)>>, !.ext = (Sched = "ext"), !.hist = IF TraceOn THEN Append(@, <<"RA", <<>>>>) ELSE @]
-          /\ ops' = Append(ops, [op |-> "resolve", arg |-> IF Sched = "ext" THEN "ext" ELSE "", out |-> "", unres |-> {}, iter |-> 0])
+          /\ ops' = Append(ops, [op |-> "resolve", arg |-> IF Sched = "ext" THEN "ext" ELSE "", out |-> "", unres |-> {}, iter |-> 0, a |-> Nil, v |-> Nil])
           /\ UNCHANGED lastres
+       \/ \* alias.target = value  (public setter; `value` is a member alias or the object a member alias names)
+          /\ Sched = "api" /\ S.coll # <<>>
+          /\ \E ka, kv \in 1..Len(MemberAliases(S)) :
+               LET a == MemberAliases(S)[ka]  v == MemberAliases(S)[kv] IN
+               /\ a # v
+               /\ S' = [S EXCEPT !.stack = <<[Fr("ST", a) EXCEPT !.x = v]>>]
+               /\ ops' = Append(ops, [op |-> "settarget", arg |-> "", out |-> "", unres |-> {}, iter |-> 0, a |-> a, v |-> v])
+          /\ lastres' = <<>>
   /\ UNCHANGED <<prog, R, phase, bm, crashed, fixbad, probes, flagsv, proj0>>
 
 Run ==           \* up to Grain micro steps of the running call; on return the call's outcome is recorded
@@ -738,7 +789,8 @@ Run ==           \* up to Grain micro steps of the running call; on return the c
         ELSE /\ ops' = [ops EXCEPT ![Len(ops)].out = IF S1.exc = "" THEN "ok" ELSE S1.exc,
                                    ![Len(ops)].unres = IF LastOp = "resolve" THEN S1.unres ELSE {},
                                    ![Len(ops)].iter = IF LastOp = "resolve" THEN S1.iter ELSE 0]
-             /\ crashed' = S1.exc
+             \* the target setter documents CyclicAliasError (and its registration may report an unresolvable chain): not a crash
+             /\ crashed' = IF LastOp = "settarget" /\ S1.exc \in {"ARE", "CYC"} THEN "" ELSE S1.exc
              /\ IF LastOp = "resolve" /\ S1.exc = ""
                 THEN /\ lastres' = <<Core(S1), S1.unres>>
                      /\ fixbad' = (fixbad \/ (lastres # <<>> /\ lastres # <<Core(S1), S1.unres>>))
@@ -751,6 +803,7 @@ Finish ==        \* the schedule ends; every member alias is probed
   /\ phase = "ld" /\ S.stack = <<>> /\ S.coll # <<>>
   /\ (Prop = "C05" /\ crashed = "" => NumOps("resolve") = 1)
   /\ (Prop = "C06" /\ Sched \in {"std", "ext"} /\ crashed = "" => AllWantedLoaded /\ LastTwoResolve)
+  /\ (Sched = "api" => LastOp = "settarget")
   /\ phase' = IF crashed # "" THEN "done" ELSE "probe"
   /\ proj0' = IF Gen THEN ProjS(S) ELSE <<>>
   /\ S' = [S EXCEPT !.log = FALSE]
@@ -822,7 +875,12 @@ PassedClean == PassedIffOnStack(S) /\ NoReentrantRT(S)
 \* (iii) all-or-nothing: between public calls no member alias is bound on top of an unbound / looping chain
 AllOrNothingRaw == Quiescent => \A k \in 1..Len(MemberAliases(S)) :
                    LET a == MemberAliases(S)[k] IN S.al[a].tgt # Nil => ~HitsUnbound(S, a)
-AllOrNothing == InClaim => AllOrNothingRaw
+AllOrNothing == (InClaim /\ Sched # "api") => AllOrNothingRaw      \* (the setter binds onto whatever it is given)
+\* (not a clause of the property, an exploration aid): is a chain of BOUND links that loops reachable at all?  With the current
+\* code TLC finds it only through born-resolved aliases (expand_wildcards / set_member re-targeting, pattern E1)
+RECURSIVE LoopsF(_, _, _)
+LoopsF(S0, o, fuel) == IF o = Nil \/ ~IsAl(S0, o) THEN FALSE ELSE IF fuel = 0 THEN TRUE ELSE LoopsF(S0, S0.al[o].tgt, fuel - 1)
+NoBoundCycle == \A k \in 1..Len(MemberAliases(S)) : ~LoopsF(S, MemberAliases(S)[k], 12)
 \* (iv) after resolve_aliases: `resolved` implies final_target works; an unresolved alias yields one of the two errors
 ProbeConsistent == InClaim => \A k \in 1..Len(probes) : Len(probes[k].out) = 2 =>
                      /\ probes[k].out[1] \in {"ok", "ARE", "CYC"}
